@@ -535,13 +535,13 @@ func typeMentions(t types.Type, target *types.Named, depth int) bool {
 // bareChanOps is the closed table of blocking channel operations outside a select in SDK code, each
 // with the reason it cannot block forever (given the property's provisos).
 var bareChanOps = map[string]string{
-	"(*Connection).wait:<-c.done":                    "the API's blocking point: Wait/Close block until the connection is done",
-	"(*Connection).handleAsync:<-releaser.ch":        "released by the deferred release(true) of the handler goroutine started in the same iteration (R-C03-3)",
-	"(*Server).subscriptionsListen:<-ctx.Done()":     "handler context: cancelled by the peer's cancel, by reader exit, or by ServerSession.Close (R-C05-4)",
-	"callSubscriptionsListen$1:<-ctx.Done()":         "cancelled by ClientSession.Close via listenCancel (R-C05-4)",
-	"(*Server).Run$1:ssClosed <- ss.Wait()":          "received on both arms of Run's select",
-	"(*Server).Run:<-ssClosed":                       "the goroutine above sends exactly once after Wait returns; Close was just called",
-	"(*pipeRWC).Close$1:resChan <- s.cmd.Wait()":     "buffered channel of capacity 1",
+	"(*Connection).wait:recv Connection.done":               "the API's blocking point: Wait/Close block until the connection is done",
+	"(*Connection).handleAsync:recv releaser.ch":            "released by the deferred release(true) of the handler goroutine started in the same iteration (R-C03-3)",
+	"(*Server).subscriptionsListen:recv context.Done()":     "handler context: cancelled by the peer's cancel, by reader exit, or by ServerSession.Close (R-C05-4)",
+	"callSubscriptionsListen$1:recv context.Done()":         "cancelled by ClientSession.Close via listenCancel (R-C05-4)",
+	"(*Server).Run$1:send local(chan error)":                "received on both arms of Run's select",
+	"(*Server).Run:recv local(chan error)":                  "the goroutine above sends exactly once after Wait returns; Close was just called",
+	"(*pipeRWC).Close$1:send local(chan error)":             "buffered channel of capacity 1",
 }
 
 func (c *Ctx) goroutineRules(rels []string) {
@@ -642,17 +642,18 @@ func (c *Ctx) goroutineRules(rels []string) {
 				}
 				var op ast.Node
 				var desc string
+				// the channel is described by owner type and field (or by its element type for locals), not by variable names
 				switch s := n.(type) {
 				case *ast.SendStmt:
-					op, desc = s, exprStr(s.Chan)+" <- "+exprStr(s.Value)
+					op, desc = s, "send "+f.FieldPath(s.Chan)
 				case *ast.ExprStmt:
 					if u, ok := ast.Unparen(s.X).(*ast.UnaryExpr); ok && u.Op == token.ARROW {
-						op, desc = s, "<-"+exprStr(u.X)
+						op, desc = s, "recv "+f.FieldPath(u.X)
 					}
 				case *ast.AssignStmt:
 					if len(s.Rhs) == 1 {
 						if u, ok := ast.Unparen(s.Rhs[0]).(*ast.UnaryExpr); ok && u.Op == token.ARROW {
-							op, desc = s, "<-"+exprStr(u.X)
+							op, desc = s, "recv "+f.FieldPath(u.X)
 						}
 					}
 				}
